@@ -9,11 +9,11 @@ from .contracts import REGISTRY
 from .core import State, fresh_name
 from .expr import KIND_OF_TYPE, OK, RAISE, ExprMixin, Rec
 from .universe import LISTLIKE, SINGLETONS
-from .vals import BM, Builtin, Cls, Fn, It, Mod, Star, SuperProxy, T, Tup, Unsupported
+from .vals import BM, Builtin, Cls, Fn, It, Mod, Mt, Star, SuperProxy, T, Tup, Unsupported
 
 SPEC_PRIMS = {
     "is_none", "is_bool", "is_int", "is_float", "is_num", "is_str", "is_arr", "is_obj", "is_nothing", "is_nodelist",
-    "is_tuple", "is_container", "nvals", "prog_len", "prog_at", "is_gen", "is_slice", "is_enum", "is_exc", "is_userfunc", "Node", "NodeList", "Ctx", "nkeys", "key_at", "val_at", "has_key",
+    "is_tuple", "is_pattern", "is_container", "nvals", "prog_len", "prog_at", "is_gen", "is_slice", "is_enum", "is_exc", "is_userfunc", "Node", "NodeList", "Ctx", "nkeys", "key_at", "val_at", "has_key",
     "get", "num", "seq", "pending", "implies", "iff", "old", "raised", "exc_is", "same", "slice_of", "int_of", "str_of",
     "codepoint", "char", "ucall", "regex_fullmatch", "regex_search", "iregexp_ok", "str_count", "str_rfind", "int_str",
     "canonical", "is_hexdigit_code", "finditer_outcome", "compile_outcome", "is_pynum", "is_pylist", "is_pyobject", "obj_eq", "slice_parts", "py_equal", "float_of", "truthy", "mk_list", "mk_tuple", "enum_ord", "func_id",
@@ -493,6 +493,8 @@ class CallMixin(ExprMixin):
             return B(self.is_kind(a[0], ["VNothing"]))
         if name == "is_nodelist":
             return B(self.is_kind(a[0], ["VNodeList"]))
+        if name == "is_pattern":
+            return B(self.is_kind(a[0], ["VOpaque"]))
         if name == "is_tuple":
             return B(self.is_kind(a[0], ["VTuple"]))
         if name == "is_gen":
@@ -604,6 +606,11 @@ class CallMixin(ExprMixin):
         raise Unsupported("spec primitive " + name)
 
     # ---------------- constructors -----------------
+    def bi_re_compile(self, args, kwargs, st):
+        """a compiled pattern is an opaque value determined by its source text"""
+        f = self.uf("re_pattern_id", z3.StringSort(), z3.IntSort())
+        return self.ok(T("V", self.U.con("VOpaque", f(self.str_term(args[0])))), st)
+
     def construct(self, cname, args, kwargs, st):
         U = self.U
         src = U.src
@@ -646,6 +653,14 @@ class CallMixin(ExprMixin):
 
                 vals.append(z3.Const(fresh_name(f"{rec.cls}.{f}"), self.V))
         return U.con("C_" + rec.cls, *vals)
+
+    def rec_of(self, cls, t):
+        """record of the fields of object t (an instance of cls), for in-place updates"""
+        U = self.U
+        r = Rec(cls)
+        for f in U.src.classes[cls].fields:
+            r.fields[f] = T("V", U.acc(f"{cls}__{f}", t))
+        return r
 
     def inline_init(self, icls, init, rec, args, kwargs, st):
         """Execute a package __init__ symbolically on an object under construction (constructors are
@@ -726,6 +741,25 @@ class CallMixin(ExprMixin):
         U = self.U
         src = U.src
         recv, name = bm.recv, bm.name
+        if isinstance(recv, Mt):
+            if name == "group" and not args:
+                g = z3.SubString(recv.q, recv.pos, recv.r)
+                if st.mode == "code":
+                    self.oblige(st, "safety:none:group", recv.r >= 0, "group() of a failed match")
+                return self.ok(T("str", g), st.fork(z3.Length(g) == recv.r))
+            raise Unsupported(f"method .{name}() on a match object")
+        if name == "match" and len(args) == 2 and isinstance(recv, T) and recv.kind == "V" and bm.static_cls is None:
+            # compiled regular expression (external: assumed contract of re.Pattern.match, see vals.Mt)
+            if st.mode == "code":
+                self.oblige(st, "safety:method:match", U.is_("VOpaque", recv.t), "receiver is a compiled pattern")
+                self.oblige(st, "safety:arg:match", z3.And(self.is_kind(args[0], ["VStr"]), self.is_kind(args[1], ["VInt"])), "match(str, int)")
+            q, pos = self.str_term(args[0]), self.int_term(args[1])
+            f = self.uf("re_match_len", self.V, z3.StringSort(), z3.IntSort(), z3.IntSort())
+            r = f(recv.t, q, pos)
+            n = z3.Length(q)
+            cpos = z3.If(pos > n, n, z3.If(pos < 0, z3.IntVal(0), pos))
+            self.axioms.append(z3.And(r >= -1, r <= n - cpos))
+            return self.ok(Mt(r, q, cpos), st)
         if bm.static_cls is not None:
             # super().m(...)
             mro = src.mro(bm.static_cls)[1:]
@@ -829,6 +863,13 @@ class CallMixin(ExprMixin):
             if st.mode == "spec":
                 return okk(st)
             return self.split(st, zero, lambda b: self.raise_(b, "ValueError"), okk)
+        if name == "startswith" and len(args) == 2 and not isinstance(args[0], Tup):
+            # s.startswith(p, start) == s[start:].startswith(p), start clipped like a slice bound
+            s = self.str_term(recv)
+            p, i = self.str_term(args[0]), self.int_term(args[1])
+            n = z3.Length(s)
+            lo = z3.If(i < 0, z3.If(i + n < 0, z3.IntVal(0), i + n), i)
+            return self.ok(self.bool_(z3.And(lo <= n, z3.PrefixOf(p, z3.SubString(s, lo, n - lo)))), st)
         if name == "startswith" and len(args) == 1:
             s = self.str_term(recv)
             p = args[0]
@@ -904,11 +945,40 @@ class CallMixin(ExprMixin):
             # ordinary function
             out = []
             iff_conds = []
+            mut = dict(getattr(c, "mutates", None) or {})
+            before = {}
+            for name in mut:
+                b = env.get(name)
+                if st.mode == "code" and not isinstance(b, Rec):
+                    raise Unsupported(f"call of {key} updates {name} in place: the caller must list that object in `mutates`")
+                before[name] = b
+
+            def havoc(state, spec_env):
+                """after the call the updated objects are new unknown instances (constrained by the callee's clauses);
+                every caller variable bound to the old record now denotes the new one"""
+                s2 = state
+                for name, cls in mut.items():
+                    m = z3.Const(fresh_name("upd"), self.V)
+                    spec_env[name] = T("V", m)
+                    spec_env[name + "0"] = T("V", self.box(before[name]))
+                    s2 = s2.fork(self.isinstance_term(T("V", m), Cls(cls)))
+                    if isinstance(before[name], Rec):
+                        nr = self.rec_of(cls, m)
+                        s2 = s2.fork()
+                        for var, val in list(s2.env.items()):
+                            if val is before[name]:
+                                s2.env[var] = nr
+                        if s2.ghost.get("rec") is before[name]:
+                            s2.ghost["rec"] = nr
+                return s2
+
             for ecls, cond in c.raises_iff:
                 iff_conds.append((ecls, self.truthy(self.ev1(c.parsed(cond), cs))))
             ns = st.fork(*[z3.Not(ct) for _, ct in iff_conds])
             if self.feasible(ns):
-                rs = State(dict(env), ns.pc, None, "spec", None, dict(ns.ghost))
+                spec_env = dict(env)
+                ns = havoc(ns, spec_env)
+                rs = State(spec_env, ns.pc, None, "spec", None, dict(ns.ghost))
                 result = None
                 rest = list(c.defines) + list(c.ensures)
                 if rest:
@@ -923,15 +993,23 @@ class CallMixin(ExprMixin):
                 facts = [self.truthy(self.ev1(c.parsed(cl), rs)) for cl in rest]
                 out.extend(self.ok(result, self.assume(ns, facts)))
             if st.mode == "code":
+                def raised(state, e):
+                    spec_env = dict(env)
+                    s4 = havoc(state, spec_env)
+                    spec_env["exc"] = T("V", e)
+                    xs = State(spec_env, s4.pc, None, "spec", None, dict(s4.ghost))
+                    facts = [self.truthy(self.ev1(c.parsed(cl), xs)) for cl in getattr(c, "raises_ensures", ())]
+                    return self.assume(s4, facts) if facts else s4
+
                 for ecls, ct in iff_conds:
                     s3 = st.fork(ct)
                     if self.feasible(s3):
                         e = z3.Const(fresh_name("exc"), self.V)
-                        out.append((RAISE, e, s3.fork(U.isinstance_exc(e, ecls))))
+                        out.append((RAISE, e, raised(s3.fork(U.isinstance_exc(e, ecls)), e)))
                 free = [a for a in c.raises if not any(a == e or e in src.mro(a) for e, _ in iff_conds)]
                 if free:
                     e = z3.Const(fresh_name("exc"), self.V)
-                    out.append((RAISE, e, st.fork(z3.Or(*[U.isinstance_exc(e, a) for a in free]))))
+                    out.append((RAISE, e, raised(st.fork(z3.Or(*[U.isinstance_exc(e, a) for a in free])), e)))
             return out
         finally:
             self.cur_module, self.cur_class = save_mod, save_cls
